@@ -8,9 +8,31 @@
 // reference model map[(instrument, attribute set)] -> exact sum of the Adds.
 //
 // All numbers are exact: a measurement is an integer number of units (1 for
-// int64 instruments, 1/8 for float64 instruments), every value carries the
-// unique id of its Add in its low bits, so a lost measurement cannot be
-// cancelled by a double count of another one.
+// int64 instruments; 1/8, 2^-1074 or 2^971 for float64 instruments, a
+// generated property of the instrument), every value carries the unique id of
+// its Add in its low bits, so a lost measurement cannot be cancelled by a
+// double count of another one. Values range up to 2^60 (int64: beyond what a
+// float64 holds) and 2^52 units (float64); a per-stream budget (see budget)
+// keeps every partial sum exact, so that the reference sum does not depend on
+// the order of the Adds or on how collections partition them.
+//
+// Special float64 values are part of "all inputs": the statement quantifies
+// over the measurements recorded, Float64Counter.Add / Float64UpDownCounter.Add
+// take any float64 and document no restriction beyond "increasing values" for
+// the counter. Generated: +Inf and -0 on both kinds, -Inf and NaN on up-down
+// counters only (a negative or NaN increment is outside a counter's contract),
+// subnormal values and totals, totals crossing from subnormal to normal, and
+// finite values whose total exceeds MaxFloat64 (= +Inf in IEEE arithmetic).
+// The reference total is computed in IEEE arithmetic under an order
+// independence argument (see obs): NaN if a NaN or infinities of both signs
+// were recorded, else the recorded infinity, else the exact finite sum; NaN is
+// compared as NaN, -0 as 0. Where IEEE arithmetic itself is order dependent
+// (huge positive values mixed with negative ones on an up-down counter) both
+// outcomes are accepted.
+//
+// Collection calls may be repeated up to 200 times in a row (Op.N) and half of
+// the Adds of a third of the programs go to one "hot" stream: long histories
+// in which streams stay idle through many collections and are measured again.
 //
 // Every Add, Collect, ForceFlush, Shutdown and Export is stamped with a
 // logical clock (vk.Clock). The oracle is schedule independent: for a set K
@@ -121,6 +143,12 @@ type Inst struct {
 	// those with the same (scope, name, kind) are handles of ONE instrument and
 	// feed one stream (the model merges them).
 	Name string `json:"name,omitempty"`
+	// Scale (float64 instruments only): the size of one unit of this
+	// instrument's measurements: "" 1/8, "sub" 2^-1074 (the smallest subnormal:
+	// every sum below 2^53 units is exact, sums of 2^52 units and more are normal
+	// numbers), "huge" 2^971 (MaxFloat64 = (2^53-1) units: sums below 2^53 units
+	// are exact, a sum of 2^53 units or more is +Inf in IEEE arithmetic).
+	Scale string `json:"scale,omitempty"`
 }
 
 // Reader is one reader of the provider.
@@ -168,6 +196,13 @@ type Op struct {
 	X bool `json:"x,omitempty"` // collect / flush / reader_flush: the call is given an already cancelled context
 	F bool `json:"f,omitempty"` // collect: use a fresh ResourceMetrics instead of the goroutine's reused one
 	D int  `json:"d,omitempty"` // sleep: 0 300us, 1 1ms, 2 3ms, 3 6ms
+	// Z: add on a float64 instrument: a special value instead of V units:
+	// "+inf" | "-inf" | "nan" | "-0" ("-inf" and "nan" on up-down counters only:
+	// a counter takes non-negative increments; see special)
+	Z string `json:"z,omitempty"`
+	// N: collect / flush / reader_flush: the call is repeated N more times in a
+	// row (long histories of collections during which streams stay idle)
+	N int `json:"n,omitempty"`
 }
 
 // Case is one generated program.
@@ -271,6 +306,20 @@ func genWorld(t *rapid.T) Case {
 			})
 		}
 	}
+	// the unit of every float64 instrument (handles of one instrument share it)
+	scaleBy := map[ident]string{}
+	for i := range c.Insts {
+		if !isFloat(c.Insts[i]) {
+			continue
+		}
+		id := identOf(c, i)
+		sc, ok := scaleBy[id]
+		if !ok {
+			sc = rapid.SampledFrom([]string{"", "", "", "", "", "sub", "huge", "huge"}).Draw(t, "scale")
+			scaleBy[id] = sc
+		}
+		c.Insts[i].Scale = sc
+	}
 	ns := rapid.IntRange(1, 6).Draw(t, "sets")
 	for _, u := range rapid.SliceOfNDistinct(rapid.IntRange(0, len(universe)-1), ns, ns, rapid.ID[int]).Draw(t, "set_ids") {
 		c.Sets = append(c.Sets, universe[u])
@@ -301,26 +350,79 @@ func genWorld(t *rapid.T) Case {
 type addGen struct {
 	c    *Case
 	next int
+	// special: one in `special` Adds on a float64 instrument records a special
+	// value (+Inf, -Inf, NaN, -0); 0 = none
+	special int
+	// hot: half of the Adds go to ONE stream (hotI, hotS): a long history of a
+	// single stream (large totals, idle periods followed by new measurements)
+	hot        bool
+	hotI, hotS int
+}
+
+func newAddGen(t *rapid.T, c *Case) *addGen {
+	g := &addGen{c: c, special: genSpecialRate(t)}
+	if g.hot = rapid.IntRange(0, 2).Draw(t, "hot_stream") == 0; g.hot {
+		g.hotI = rapid.IntRange(0, len(c.Insts)-1).Draw(t, "hot_i")
+		g.hotS = rapid.IntRange(0, len(c.Sets)-1).Draw(t, "hot_s")
+	}
+	return g
+}
+
+// genSpecialRate: half of the programs record finite values only.
+func genSpecialRate(t *rapid.T) int {
+	return rapid.SampledFrom([]int{0, 0, 0, 0, 24, 12, 6, 3}).Draw(t, "special_floats_one_in")
 }
 
 func (g *addGen) draw(t *rapid.T, pert []int) Op {
 	op := Op{K: "add", P: rapid.SampledFrom(pert).Draw(t, "p")}
 	op.I = rapid.IntRange(0, len(g.c.Insts)-1).Draw(t, "i")
 	op.S = rapid.IntRange(0, len(g.c.Sets)-1).Draw(t, "s")
+	if g.hot && rapid.Bool().Draw(t, "to_hot_stream") {
+		op.I, op.S = g.hotI, g.hotS
+	}
 	op.A = rapid.IntRange(0, 3).Draw(t, "with_attributes") == 0
 	op.M = rapid.SampledFrom([]int{0, 0, 0, 0, 0, 1, 2, 3, 4}).Draw(t, "multi_option")
 	id := int64(g.next%1023) + 1
 	g.next++
+	in := g.c.Insts[op.I]
+	neg := !isCounter(in) && rapid.IntRange(0, 2).Draw(t, "neg") == 0
+	// how large a value may be: up to 2^52 + id (the per-stream budget of
+	// newAdd keeps every sum exact); negative values of a huge-scale
+	// instrument stay small (overflow towards -Inf is order dependent)
+	maxPow := 52
+	switch {
+	case !isFloat(in):
+		maxPow = 60
+	case in.Scale == "huge" && neg:
+		maxPow = 40
+	}
+	topFrom := 13
+	if in.Scale == "huge" && isFloat(in) && !neg {
+		topFrom = 8 // totals beyond MaxFloat64 need several values near the top
+	}
 	switch k := rapid.IntRange(0, 15).Draw(t, "vkind"); {
 	case k == 0:
 		op.V = 0 // creates the stream without changing the sum
 	case k < 8:
 		op.V = id
-	default:
+	case k < topFrom:
 		op.V = int64(1)<<uint(rapid.IntRange(10, 40).Draw(t, "pow")) + id
+	default:
+		lo := maxPow - 3
+		if !isFloat(in) {
+			lo = 50
+		}
+		op.V = int64(1)<<uint(rapid.IntRange(lo, maxPow).Draw(t, "pow_top")) + id
 	}
-	if !isCounter(g.c.Insts[op.I]) && rapid.IntRange(0, 2).Draw(t, "neg") == 0 {
+	if neg {
 		op.V = -op.V
+	}
+	if isFloat(in) && g.special > 0 && rapid.IntRange(1, g.special).Draw(t, "special") == 1 {
+		zs := []string{"+inf", "+inf", "-0"}
+		if !isCounter(in) {
+			zs = []string{"+inf", "+inf", "-inf", "-inf", "-0", "nan"}
+		}
+		op.Z = rapid.SampledFrom(zs).Draw(t, "special_value")
 	}
 	return op
 }
@@ -350,6 +452,14 @@ func genCollectorOp(t *rapid.T, rds []Reader, pert []int, sleeps bool) Op {
 	}
 	if op.K != "sleep" {
 		op.X = rapid.IntRange(0, 11).Draw(t, "cancelled_ctx") == 0
+		// long histories: the same call many times in a row (streams that were
+		// measured before stay idle through all of them)
+		if rapid.IntRange(0, 15).Draw(t, "repeated") == 0 {
+			op.N = rapid.OneOf(rapid.IntRange(1, 4), rapid.IntRange(5, 40), rapid.IntRange(33, 200)).Draw(t, "repeats")
+			if op.K != "collect" && op.N > 64 {
+				op.N = 64 // a flush collects every reader
+			}
+		}
 	}
 	return op
 }
@@ -392,7 +502,7 @@ func genSumView(t *rapid.T, c *Case) {
 
 func gen(t *rapid.T) Case {
 	c := genWorld(t)
-	ag := &addGen{c: &c}
+	ag := newAddGen(t, &c)
 	nphases := rapid.IntRange(1, 4).Draw(t, "phases")
 	for p := 0; p < nphases; p++ {
 		var phase [][]Op
@@ -449,7 +559,7 @@ func gen(t *rapid.T) Case {
 // periodic readers still run beside it).
 func genSeq(t *rapid.T) Case {
 	c := genWorld(t)
-	ag := &addGen{c: &c}
+	ag := newAddGen(t, &c)
 	n := rapid.OneOf(rapid.IntRange(1, 20), rapid.IntRange(1, 80)).Draw(t, "ops")
 	ops := []Op{}
 	none := []int{0}
@@ -522,6 +632,19 @@ func canonical(c Case) []int {
 	return out
 }
 
+// repeats: how many more times a collection call is issued in a row.
+func repeats(op Op) int {
+	switch {
+	case op.N <= 0:
+		return 0
+	case op.K != "collect" && op.N > 64:
+		return 64
+	case op.N > 200:
+		return 200
+	}
+	return op.N
+}
+
 func sleepFor(d int) time.Duration {
 	switch d {
 	case 1:
@@ -534,7 +657,8 @@ func sleepFor(d int) time.Duration {
 	return 300 * time.Microsecond
 }
 
-// units is the number of units an add contributes (counters take |V|).
+// units is the number of units an add contributes (counters take |V|); the
+// caller (newAdd) applies the per-stream budget that keeps every sum exact.
 func units(op Op, in Inst) int64 {
 	v := op.V
 	if v == math.MinInt64 {
@@ -543,11 +667,116 @@ func units(op Op, in Inst) int64 {
 	if isCounter(in) && v < 0 {
 		v = -v
 	}
-	const lim = int64(1) << 42 // keeps every partial sum of <= 1000 adds exact in float64/8
+	lim := int64(1)<<52 + 1023
+	if !isFloat(in) {
+		lim = int64(1)<<60 + 1023 // (a single int64 value beyond 2^53: no float64 holds it)
+	}
 	if v > lim || v < -lim {
-		v %= lim
+		v %= 1 << 42
 	}
 	return v
+}
+
+// top: a float64 holds every integer below 2^53 exactly; at the huge scale a
+// sum of 2^53 units or more is +Inf.
+const top = int64(1) << 53
+
+// budget tracks, per stream, the sum of the magnitudes of the finite values
+// recorded so far; a value that would take it beyond what the number type
+// adds up exactly is cut down to its low bits (the id of the Add). The
+// reference arithmetic is then independent of the order of the Adds and of
+// the way collections partition them: every partial sum is an exact integer
+// number of units.
+//
+//   - int64: |sum| < 2^62
+//   - float64: |sum| < 2^53 units (minus what exporters may record themselves)
+//   - float64 at the huge scale: only the NEGATIVE values are budgeted
+//     (< 2^52 units in total, so no partial sum overflows towards -Inf); the
+//     positive ones may add up to 2^53 units and more, which is +Inf whatever
+//     the order when every value is non-negative (counters), and "+Inf or the
+//     exact sum" when negative values are mixed in (see fits).
+type budget map[stream][2]int64 // [0] positive, [1] negative magnitudes
+
+func (b budget) take(s stream, in Inst, v int64) int64 {
+	const reserve = int64(1) << 31
+	cur := b[s]
+	lim := top - reserve
+	if !isFloat(in) {
+		lim = int64(1)<<62 - reserve
+	}
+	mag, side := v, 0
+	if v < 0 {
+		mag, side = -v, 1
+	}
+	switch {
+	case isFloat(in) && in.Scale == "huge" && side == 0:
+		// unlimited: overflow is part of the model
+	case isFloat(in) && in.Scale == "huge":
+		if cur[1]+mag > top/2-reserve {
+			mag %= 1024
+		}
+	default:
+		if cur[0]+cur[1]+mag > lim {
+			mag %= 1024
+		}
+	}
+	cur[side] += mag
+	b[s] = cur
+	if side == 1 {
+		return -mag
+	}
+	return mag
+}
+
+// special is the special value an Add records (0 = none): '+' +Inf, '-' -Inf,
+// 'n' NaN, 'z' -0. Only float64 instruments have them; a Counter "records
+// increasing values" (non-negative increments): -Inf and NaN are outside its
+// contract and are not generated for it.
+func special(op Op, in Inst) byte {
+	if !isFloat(in) {
+		return 0
+	}
+	switch op.Z {
+	case "+inf":
+		return '+'
+	case "-0":
+		return 'z'
+	case "-inf":
+		if !isCounter(in) {
+			return '-'
+		}
+	case "nan":
+		if !isCounter(in) {
+			return 'n'
+		}
+	}
+	return 0
+}
+
+// scaleExp: one unit of instrument in is 2^scaleExp.
+func scaleExp(in Inst) int {
+	switch in.Scale {
+	case "sub":
+		return -1074
+	case "huge":
+		return 971
+	}
+	return -3
+}
+
+// floatOf is the float64 an Add of u units (or of a special value) records.
+func floatOf(in Inst, u int64, sp byte) float64 {
+	switch sp {
+	case '+':
+		return math.Inf(1)
+	case '-':
+		return math.Inf(-1)
+	case 'n':
+		return math.NaN()
+	case 'z':
+		return math.Copysign(0, -1)
+	}
+	return math.Ldexp(float64(u), scaleExp(in))
 }
 
 func tempOf(r Reader, counter bool) metricdata.Temporality {
@@ -601,6 +830,7 @@ type addRec struct {
 	raw        int // instrument handle the Add goes through
 	set        string
 	units      int64
+	sp         byte // special value recorded instead of units (see special); 0 = none
 	done       bool
 	where      string // phase N | late_conc | late
 }
@@ -615,6 +845,7 @@ type consumer struct {
 	start, end int64
 	exit       int64 // export: Export returned
 	pts        map[stream]int64
+	sp         map[stream]byte // points that report a non-finite value: '+' +Inf, '-' -Inf, 'n' NaN (pts holds 0 for them)
 	probs      []vk.Violation
 }
 
@@ -670,8 +901,9 @@ type world struct {
 
 // extract deep-copies what a collection reported into harness-owned data and
 // checks its structure (the SDK reuses the ResourceMetrics afterwards).
-func (w *world) extract(rm *metricdata.ResourceMetrics, reader int) (map[stream]int64, []vk.Violation) {
+func (w *world) extract(rm *metricdata.ResourceMetrics, reader int) (map[stream]int64, map[stream]byte, []vk.Violation) {
 	pts := map[stream]int64{}
+	sps := map[stream]byte{}
 	var probs []vk.Violation
 	bad := func(kind, format string, a ...any) { probs = append(probs, vk.V(kind, format, a...)) }
 	rd := w.c.Readers[reader]
@@ -721,6 +953,7 @@ func (w *world) extract(rm *metricdata.ResourceMetrics, reader int) (map[stream]
 				set   attribute.Set
 				units int64
 				exact bool
+				sp    byte
 			}
 			var dps []pt
 			switch d := m.Data.(type) {
@@ -730,7 +963,7 @@ func (w *world) extract(rm *metricdata.ResourceMetrics, reader int) (map[stream]
 				}
 				temp, mono = d.Temporality, d.IsMonotonic
 				for _, dp := range d.DataPoints {
-					dps = append(dps, pt{dp.Attributes, dp.Value, true})
+					dps = append(dps, pt{dp.Attributes, dp.Value, true, 0})
 				}
 			case metricdata.Sum[float64]:
 				if !isFloat(in) {
@@ -738,16 +971,27 @@ func (w *world) extract(rm *metricdata.ResourceMetrics, reader int) (map[stream]
 				}
 				temp, mono = d.Temporality, d.IsMonotonic
 				for _, dp := range d.DataPoints {
-					u := dp.Value * 8
+					switch {
+					case math.IsNaN(dp.Value):
+						dps = append(dps, pt{dp.Attributes, 0, true, 'n'})
+						continue
+					case math.IsInf(dp.Value, 1):
+						dps = append(dps, pt{dp.Attributes, 0, true, '+'})
+						continue
+					case math.IsInf(dp.Value, -1):
+						dps = append(dps, pt{dp.Attributes, 0, true, '-'})
+						continue
+					}
+					u := math.Ldexp(dp.Value, -scaleExp(in)) // exact: a power of two
 					exact := u == math.Trunc(u) && math.Abs(u) < 1<<53
 					var iu int64
 					if exact {
 						iu = int64(u)
 					}
 					if !exact {
-						bad("inexact_value", "reader %d reported %v for %s%s: not a sum of the recorded multiples of 1/8", reader, dp.Value, m.Name, setKey(dp.Attributes.ToSlice()))
+						bad("inexact_value", "reader %d reported %v for %s%s: not a sum of the recorded multiples of 2^%d", reader, dp.Value, m.Name, setKey(dp.Attributes.ToSlice()), scaleExp(in))
 					}
-					dps = append(dps, pt{dp.Attributes, iu, exact})
+					dps = append(dps, pt{dp.Attributes, iu, exact, 0})
 				}
 			default:
 				bad("wrong_data_type", "reader %d reported %T for instrument %s", reader, m.Data, m.Name)
@@ -767,10 +1011,13 @@ func (w *world) extract(rm *metricdata.ResourceMetrics, reader int) (map[stream]
 				if dp.exact {
 					pts[s] += dp.units
 				}
+				if dp.sp != 0 {
+					sps[s] = dp.sp
+				}
 			}
 		}
 	}
-	return pts, probs
+	return pts, sps, probs
 }
 
 var errFailCB = errors.New("c02: scripted callback failure")
@@ -810,7 +1057,8 @@ type collector interface {
 	Shutdown(context.Context) error
 }
 
-type adder func(ctx context.Context, u int64, opt ...metric.AddOption)
+// adder records u units (or, on a float64 instrument, the special value sp)
+type adder func(ctx context.Context, u int64, sp byte, opt ...metric.AddOption)
 
 // ---------------------------------------------------------------------
 // bracket arithmetic
@@ -819,6 +1067,12 @@ type bound struct {
 	lo, hi  int64
 	mustCnt int // adds that must be contained
 	mayCnt  int // further adds that may be contained
+	// special values among them: +Inf, -Inf, NaN ([0] must, [1] may)
+	pinf, ninf, nan [2]int
+	// hiPos: the positive units of all of them (the largest partial sum any
+	// order of the Adds can reach; decides whether a huge-scale stream can
+	// overflow to +Inf)
+	hiPos int64
 }
 
 // bounds: adds that returned before tMust must be contained, adds issued
@@ -826,12 +1080,15 @@ type bound struct {
 func bounds(as []*addRec, tMust, tMay int64) bound {
 	var b bound
 	for _, a := range as {
+		k := -1
 		switch {
 		case a.end < tMust:
+			k = 0
 			b.mustCnt++
 			b.lo += a.units
 			b.hi += a.units
 		case a.start < tMay:
+			k = 1
 			b.mayCnt++
 			if a.units < 0 {
 				b.lo += a.units
@@ -839,14 +1096,155 @@ func bounds(as []*addRec, tMust, tMay int64) bound {
 				b.hi += a.units
 			}
 		}
+		if k < 0 {
+			continue
+		}
+		if a.units > 0 {
+			b.hiPos += a.units
+		}
+		switch a.sp {
+		case '+':
+			b.pinf[k]++
+		case '-':
+			b.ninf[k]++
+		case 'n':
+			b.nan[k]++
+		}
 	}
 	return b
 }
 
+// obs is what a set of collections of one reader reported for one stream,
+// added up: finite units and how many of the points were +Inf / -Inf / NaN.
+//
+// Reference arithmetic for special values. IEEE addition of a multiset that
+// contains non-finite members does not depend on the order or on how the
+// multiset is partitioned into collections: the result is NaN if it contains
+// a NaN or infinities of both signs, else the infinity it contains, else the
+// (exact) finite sum. The same holds for "the sum of what the collections
+// reported": a collection that covers a +Inf reports +Inf (or NaN), and so on.
+// Both sides are therefore reduced to a class (finite u | +Inf | -Inf | NaN)
+// and compared as classes; NaN is compared as NaN.
+type obs struct {
+	u       int64
+	p, n, q int
+	seen    bool
+}
+
+func (o *obs) add(co *consumer, s stream) {
+	v, ok := co.pts[s]
+	o.u += v
+	o.seen = o.seen || ok
+	switch co.sp[s] {
+	case '+':
+		o.p++
+	case '-':
+		o.n++
+	case 'n':
+		o.q++
+	}
+}
+
+func one(co *consumer, s stream) obs {
+	var o obs
+	o.add(co, s)
+	return o
+}
+
+// class: 0 finite, '+', '-', 'n'.
+func (o obs) class(huge bool) byte {
+	switch {
+	case o.q > 0 || (o.p > 0 && o.n > 0):
+		return 'n'
+	case o.p > 0:
+		return '+'
+	case o.n > 0:
+		return '-'
+	case huge && o.u >= top:
+		return '+' // the reported (finite) values themselves add up to +Inf
+	}
+	return 0
+}
+
+func (o obs) str(huge bool) string {
+	switch o.class(huge) {
+	case 'n':
+		return "NaN"
+	case '+':
+		return "+Inf"
+	case '-':
+		return "-Inf"
+	}
+	return fmt.Sprintf("%d units", o.u)
+}
+
+// ext is the value as an extended real (monotonicity comparisons).
+func (o obs) ext(huge bool) float64 {
+	switch o.class(huge) {
+	case 'n':
+		return math.NaN()
+	case '+':
+		return math.Inf(1)
+	case '-':
+		return math.Inf(-1)
+	}
+	return float64(o.u)
+}
+
+// fits: can o be the sum of the must-Adds and of some of the may-Adds?
+// lost says whether a mismatch looks like a loss (as opposed to a double
+// count / an invented value).
+func fits(o obs, b bound, huge bool) (ok, lost bool) {
+	anyP := b.pinf[0]+b.pinf[1] > 0 || (huge && b.hiPos >= top)
+	anyN := b.ninf[0]+b.ninf[1] > 0
+	anyQ := b.nan[0]+b.nan[1] > 0
+	mustSpecial := b.pinf[0] > 0 || b.ninf[0] > 0 || b.nan[0] > 0
+	switch o.class(huge) {
+	case 'n':
+		return anyQ || (anyP && anyN), false
+	case '+':
+		return anyP && b.ninf[0] == 0 && b.nan[0] == 0, false
+	case '-':
+		return anyN && b.pinf[0] == 0 && b.nan[0] == 0, false
+	}
+	if mustSpecial {
+		return false, true
+	}
+	// (huge scale: a finite result below 2^53 units; when the must-Adds alone
+	// reach 2^53 units - lo counts the negative may-Adds too - no order of the
+	// Adds avoids the overflow)
+	if o.u < b.lo || o.u > b.hi || (huge && o.u >= top) {
+		return false, o.u < b.lo
+	}
+	return true, false
+}
+
+// allows renders what a bracket allows.
+func (b bound) allows(huge bool) string {
+	s := fmt.Sprintf("[%d, %d] units", b.lo, b.hi)
+	note := func(name string, c [2]int) {
+		if c[0] > 0 {
+			s += fmt.Sprintf("; %d Add(s) of %s among the Adds that had returned", c[0], name)
+		}
+		if c[1] > 0 {
+			s += fmt.Sprintf("; %d Add(s) of %s among the further Adds", c[1], name)
+		}
+	}
+	note("+Inf", b.pinf)
+	note("-Inf", b.ninf)
+	note("NaN", b.nan)
+	if huge && b.hiPos >= top {
+		s += fmt.Sprintf("; the positive values add up to %d units >= 2^53 = more than MaxFloat64 (+Inf in IEEE arithmetic)", b.hiPos)
+	}
+	return s
+}
+
 const never = int64(1) << 62
 
-func hint(in Inst, below bool) string {
+func hint(in Inst, below bool, o ...obs) string {
 	switch {
+	case len(o) > 0 && (o[0].p > 0 || o[0].n > 0 || o[0].q > 0):
+		return "a non-finite value was reported that no recorded measurement explains"
 	case !isCounter(in):
 		return "a measurement was lost or counted more than once"
 	case below:
@@ -926,9 +1324,10 @@ func runOnce(c Case) ([]vk.Violation, map[string]bool) {
 	adders := make([]adder, len(c.Insts))
 	for ii, in := range c.Insts {
 		name := metricName(c, ii)
+		fin := c.Insts[canon[ii]] // (handles of one instrument share its unit)
 		if c.Lazy {
 			sc, kind := scopeName(in.Scope&1), in.Kind
-			adders[ii] = func(ctx context.Context, u int64, o ...metric.AddOption) {
+			adders[ii] = func(ctx context.Context, u int64, sp byte, o ...metric.AddOption) {
 				m := mp.Meter(sc)
 				switch kind {
 				case "i64c":
@@ -936,13 +1335,13 @@ func runOnce(c Case) ([]vk.Violation, map[string]bool) {
 					x.Add(ctx, u, o...)
 				case "f64c":
 					x, _ := m.Float64Counter(name)
-					x.Add(ctx, float64(u)/8, o...)
+					x.Add(ctx, floatOf(fin, u, sp), o...)
 				case "i64u":
 					x, _ := m.Int64UpDownCounter(name)
 					x.Add(ctx, u, o...)
 				default:
 					x, _ := m.Float64UpDownCounter(name)
-					x.Add(ctx, float64(u)/8, o...)
+					x.Add(ctx, floatOf(fin, u, sp), o...)
 				}
 			}
 			classes["instruments_obtained_at_every_add(concurrent_first_use)"] = true
@@ -954,19 +1353,19 @@ func runOnce(c Case) ([]vk.Violation, map[string]bool) {
 		case "i64c":
 			var x metric.Int64Counter
 			x, err = m.Int64Counter(name)
-			adders[ii] = func(ctx context.Context, u int64, o ...metric.AddOption) { x.Add(ctx, u, o...) }
+			adders[ii] = func(ctx context.Context, u int64, _ byte, o ...metric.AddOption) { x.Add(ctx, u, o...) }
 		case "f64c":
 			var x metric.Float64Counter
 			x, err = m.Float64Counter(name)
-			adders[ii] = func(ctx context.Context, u int64, o ...metric.AddOption) { x.Add(ctx, float64(u)/8, o...) }
+			adders[ii] = func(ctx context.Context, u int64, sp byte, o ...metric.AddOption) { x.Add(ctx, floatOf(fin, u, sp), o...) }
 		case "i64u":
 			var x metric.Int64UpDownCounter
 			x, err = m.Int64UpDownCounter(name)
-			adders[ii] = func(ctx context.Context, u int64, o ...metric.AddOption) { x.Add(ctx, u, o...) }
+			adders[ii] = func(ctx context.Context, u int64, _ byte, o ...metric.AddOption) { x.Add(ctx, u, o...) }
 		default:
 			var x metric.Float64UpDownCounter
 			x, err = m.Float64UpDownCounter(name)
-			adders[ii] = func(ctx context.Context, u int64, o ...metric.AddOption) { x.Add(ctx, float64(u)/8, o...) }
+			adders[ii] = func(ctx context.Context, u int64, sp byte, o ...metric.AddOption) { x.Add(ctx, floatOf(fin, u, sp), o...) }
 		}
 		// (with the explicit sum view the misconfigured reader's default never
 		// comes into play: no error then)
@@ -1021,9 +1420,14 @@ func runOnce(c Case) ([]vk.Violation, map[string]bool) {
 
 	// ---- number the adds ----
 	var adds []*addRec
+	bud := budget{}
 	newAdd := func(op Op, where string) *addRec {
 		ii := idx(op.I, len(c.Insts))
-		a := &addRec{id: len(adds), inst: canon[ii], raw: ii, set: keys[idx(op.S, len(c.Sets))], units: units(op, c.Insts[ii]), where: where}
+		in := c.Insts[canon[ii]]
+		a := &addRec{id: len(adds), inst: canon[ii], raw: ii, set: keys[idx(op.S, len(c.Sets))], where: where}
+		if a.sp = special(op, in); a.sp == 0 {
+			a.units = bud.take(stream{a.inst, a.set}, in, units(op, in))
+		}
 		adds = append(adds, a)
 		return a
 	}
@@ -1082,7 +1486,7 @@ func runOnce(c Case) ([]vk.Violation, map[string]bool) {
 			o = []metric.AddOption{metric.WithAttributeSet(asets[si])}
 		}
 		a.start = clock.Tick()
-		adders[a.raw](ctx, a.units, o...)
+		adders[a.raw](ctx, a.units, a.sp, o...)
 		a.end = clock.Tick()
 		a.done = true
 	}
@@ -1131,8 +1535,8 @@ func runOnce(c Case) ([]vk.Violation, map[string]bool) {
 			collectErrs.Add(1)
 			return nil
 		}
-		pts, probs := w.extract(rm, ri)
-		co := &consumer{reader: ri, start: start, end: end, pts: pts, probs: probs}
+		pts, sps, probs := w.extract(rm, ri)
+		co := &consumer{reader: ri, start: start, end: end, pts: pts, sp: sps, probs: probs}
 		w.mu.Lock()
 		w.cons = append(w.cons, co)
 		w.mu.Unlock()
@@ -1172,18 +1576,24 @@ func runOnce(c Case) ([]vk.Violation, map[string]bool) {
 				case "add":
 					doAdd(slot[pi][g][oi], op)
 				case "collect":
-					rm := reused
-					if op.F {
-						rm = &metricdata.ResourceMetrics{}
+					for rep := 0; rep <= repeats(op); rep++ {
+						rm := reused
+						if op.F {
+							rm = &metricdata.ResourceMetrics{}
+						}
+						_ = doCollect(idx(op.R, len(c.Readers)), rm, op.X)
 					}
-					_ = doCollect(idx(op.R, len(c.Readers)), rm, op.X)
 				case "flush":
-					doCall("flush", op.X)
+					for rep := 0; rep <= repeats(op); rep++ {
+						doCall("flush", op.X)
+					}
 				case "reader_shutdown":
 					doCall("reader_shutdown", false, idx(op.R, len(c.Readers)))
 				case "reader_flush":
 					if ri := idx(op.R, len(c.Readers)); c.Readers[ri].Kind == "periodic" {
-						doCall("reader_flush", op.X, ri)
+						for rep := 0; rep <= repeats(op); rep++ {
+							doCall("reader_flush", op.X, ri)
+						}
 					}
 				case "sleep":
 					time.Sleep(sleepFor(op.D))
@@ -1415,40 +1825,34 @@ func runOnce(c Case) ([]vk.Violation, map[string]bool) {
 			in := c.Insts[s.inst]
 			as := byStream[s]
 			delta := tempOf(rd, isCounter(in)) == metricdata.DeltaTemporality
-			val := func(co *consumer) (int64, bool) { v, ok := co.pts[s]; return v, ok }
+			huge := isFloat(in) && in.Scale == "huge"
 
 			if delta {
 				// D1: what has been reported by T was issued before T.
-				var run int64
-				seen := false
+				var run obs
 				for _, co := range byEnd {
-					v, ok := val(co)
-					run += v
-					seen = seen || ok
+					run.add(co, s)
 					b := bounds(as, -1, co.end)
-					if seen && b.mayCnt == 0 {
+					if run.seen && b.mayCnt == 0 {
 						bad("phantom_stream", "reader %d (delta): %v reported by t=%d although no Add on it had been issued by then", ri, s, co.end)
 						break
 					}
-					if run < b.lo || run > b.hi {
-						bad("delta_overcount", "reader %d (delta) %v: the collections completed by t=%d add up to %d units, but the %d Adds issued by then allow only [%d, %d]: %s", ri, s, co.end, run, b.mayCnt, b.lo, b.hi, hint(in, run < b.lo))
+					if ok, lost := fits(run, b, huge); !ok {
+						bad("delta_overcount", "reader %d (delta) %v: the collections completed by t=%d add up to %s, but the %d Adds issued by then allow only %s: %s", ri, s, co.end, run.str(huge), b.mayCnt, b.allows(huge), hint(in, lost, run))
 						break
 					}
 				}
 				// D2 / D3: what was recorded before a collection / flush was issued has been reported.
 				check := func(what string, tMust, tIn int64, final bool) bool {
-					var sum int64
+					var sum obs
 					maxEnd := int64(-1)
-					seen := false
 					for _, co := range rc {
 						st := co.start
 						if co.export {
 							st = co.end
 						}
 						if st < tIn {
-							v, ok := val(co)
-							sum += v
-							seen = seen || ok
+							sum.add(co, s)
 							if co.end > maxEnd {
 								maxEnd = co.end
 							}
@@ -1459,17 +1863,15 @@ func runOnce(c Case) ([]vk.Violation, map[string]bool) {
 					if final {
 						kind = "delta_conservation"
 					}
-					switch {
-					case b.mustCnt > 0 && !seen:
+					if b.mustCnt > 0 && !sum.seen {
 						bad("stream_not_reported", "reader %d (delta): %v was never reported up to %s although %d Adds on it had returned before", ri, s, what, b.mustCnt)
-					case sum < b.lo:
-						bad(kind, "reader %d (delta) %v: everything reported up to %s adds up to %d units; the %d Adds that had returned before it was issued and the %d further Adds issued so far allow [%d, %d]: %s", ri, s, what, sum, b.mustCnt, b.mayCnt, b.lo, b.hi, hint(in, true))
-					case sum > b.hi:
-						bad(kind, "reader %d (delta) %v: everything reported up to %s adds up to %d units; the %d Adds that had returned before it was issued and the %d further Adds issued so far allow [%d, %d]: %s", ri, s, what, sum, b.mustCnt, b.mayCnt, b.lo, b.hi, hint(in, false))
-					default:
-						return true
+						return false
 					}
-					return false
+					if ok, lost := fits(sum, b, huge); !ok {
+						bad(kind, "reader %d (delta) %v: everything reported up to %s adds up to %s; the %d Adds that had returned before it was issued and the %d further Adds issued so far allow %s: %s", ri, s, what, sum.str(huge), b.mustCnt, b.mayCnt, b.allows(huge), hint(in, lost, sum))
+						return false
+					}
+					return true
 				}
 				if !periodic {
 					for _, co := range rc {
@@ -1488,21 +1890,50 @@ func runOnce(c Case) ([]vk.Violation, map[string]bool) {
 			}
 
 			// ---- cumulative ----
+			// (classes: long histories during which the stream stays idle)
+			if len(byEnd) > 32 && len(as) > 0 {
+				byStart := append([]*addRec{}, as...)
+				sort.Slice(byStart, func(i, j int) bool { return byStart[i].start < byStart[j].start })
+				between := func(lo, hi int64) int { // collections completed in (lo, hi)
+					i := sort.Search(len(byEnd), func(k int) bool { return byEnd[k].end > lo })
+					j := sort.Search(len(byEnd), func(k int) bool { return byEnd[k].end >= hi })
+					return j - i
+				}
+				busyUntil := int64(-1)
+				for i, a := range byStart {
+					if i > 0 && a.start > busyUntil {
+						if n := between(busyUntil, a.start); n > 32 {
+							classes["cumulative_stream_measured_again_after_more_than_32_idle_collections"] = true
+							if n > 100 {
+								classes["cumulative_stream_measured_again_after_more_than_100_idle_collections"] = true
+							}
+						}
+					}
+					if a.end > busyUntil {
+						busyUntil = a.end
+					}
+				}
+				if between(busyUntil, never) > 32 {
+					classes["cumulative_stream_idle_through_its_last_33_or_more_collections"] = true
+				}
+			}
 			for _, co := range rc {
-				v, ok := val(co)
+				v := one(co, s)
 				tMust := co.start // -1 for an export: no lower bound
 				b := bounds(as, tMust, co.end)
 				kind := "cumulative_bracket"
 				if co == finalCollect[ri] {
 					kind = "cumulative_final"
 				}
+				fit, _ := fits(v, b, huge)
 				switch {
-				case ok && b.mustCnt+b.mayCnt == 0:
+				case v.seen && b.mustCnt+b.mayCnt == 0:
 					bad("phantom_stream", "reader %d (cumulative): %v reported by %s although no Add on it had been issued by then", ri, s, co.label())
-				case !ok && b.mustCnt > 0:
+				case !v.seen && b.mustCnt > 0:
 					bad("stream_not_reported", "reader %d (cumulative): %v missing from %s although %d Adds on it had returned before", ri, s, co.label(), b.mustCnt)
-				case ok && (v < b.lo || v > b.hi):
-					bad(kind, "reader %d (cumulative) %v: %s reports %d units; Adds returned before it was issued sum to %d, Adds issued before it returned allow [%d, %d]", ri, s, co.label(), v, b.lo, b.lo, b.hi)
+				case v.seen && !fit:
+					must := bounds(as, tMust, tMust)
+					bad(kind, "reader %d (cumulative) %v: %s reports %s; the %d Adds returned before it was issued allow %s, with the Adds issued before it returned %s", ri, s, co.label(), v.str(huge), must.mustCnt, must.allows(huge), b.allows(huge))
 				default:
 					continue
 				}
@@ -1530,32 +1961,31 @@ func runOnce(c Case) ([]vk.Violation, map[string]bool) {
 					}
 				}
 				okAny := false
-				var lastV int64
+				var lastV obs
 				for _, co := range cands {
-					v, ok := val(co)
+					v := one(co, s)
 					b := bounds(as, fp.start, co.end)
-					if ok && v >= b.lo && v <= b.hi {
+					if fit, _ := fits(v, b, huge); v.seen && fit {
 						okAny = true
 					}
 					lastV = v
 				}
 				if !okAny {
 					if fp.final {
-						bad("cumulative_final", "reader %d (cumulative) %v: the last payload handed to the exporter reports %d units (of %d payloads), the Adds returned before %s was issued sum to %d", ri, s, lastV, len(exports), fp.what, b0.lo)
+						bad("cumulative_final", "reader %d (cumulative) %v: the last payload handed to the exporter reports %s (present=%v, of %d payloads), the Adds returned before %s was issued allow %s", ri, s, lastV.str(huge), lastV.seen, len(exports), fp.what, b0.allows(huge))
 					} else {
-						bad("cumulative_not_flushed", "reader %d (cumulative) %v: no collection up to the return of %s contains the %d Adds (%d units) that had returned before it was issued", ri, s, fp.what, b0.mustCnt, b0.lo)
+						bad("cumulative_not_flushed", "reader %d (cumulative) %v: no collection up to the return of %s contains the %d Adds (%s) that had returned before it was issued", ri, s, fp.what, b0.mustCnt, b0.allows(huge))
 					}
 					break
 				}
 			}
 			if isCounter(in) {
-				// never decreases
+				// never decreases (+Inf is the largest value; a NaN compares with nothing)
 				if exportsSequential {
 					for i := 1; i < len(exports); i++ {
-						p, pok := val(exports[i-1])
-						q, qok := val(exports[i])
-						if pok && (!qok || q < p) {
-							bad("cumulative_decreased", "reader %d %v: successive payloads (t=%d, t=%d) report %d then %d units (present=%v)", ri, s, exports[i-1].end, exports[i].end, p, q, qok)
+						p, q := one(exports[i-1], s), one(exports[i], s)
+						if p.seen && (!q.seen || q.ext(huge) < p.ext(huge)) {
+							bad("cumulative_decreased", "reader %d %v: successive payloads (t=%d, t=%d) report %s then %s (present=%v)", ri, s, exports[i-1].end, exports[i].end, p.str(huge), q.str(huge), q.seen)
 							break
 						}
 					}
@@ -1566,10 +1996,9 @@ func runOnce(c Case) ([]vk.Violation, map[string]bool) {
 						if b.export || a.end >= b.start {
 							continue
 						}
-						p, pok := val(a)
-						q, qok := val(b)
-						if pok && (!qok || q < p) {
-							bad("cumulative_decreased", "reader %d %v: %s reports %d units, the later %s reports %d (present=%v)", ri, s, a.label(), p, b.label(), q, qok)
+						p, q := one(a, s), one(b, s)
+						if p.seen && (!q.seen || q.ext(huge) < p.ext(huge)) {
+							bad("cumulative_decreased", "reader %d %v: %s reports %s, the later %s reports %s (present=%v)", ri, s, a.label(), p.str(huge), b.label(), q.str(huge), q.seen)
 							break mono
 						}
 					}
@@ -1579,6 +2008,61 @@ func runOnce(c Case) ([]vk.Violation, map[string]bool) {
 	}
 
 	// ---- classes ----
+	perReader := map[int]int{}
+	for _, co := range cons {
+		perReader[co.reader]++
+		for _, z := range co.sp {
+			classes["reported_non_finite_value:"+map[byte]string{'+': "+Inf", '-': "-Inf", 'n': "NaN"}[z]] = true
+		}
+	}
+	for _, n := range perReader {
+		if n > 32 {
+			classes["reader_with_more_than_32_collections"] = true
+		}
+		if n > 100 {
+			classes["reader_with_more_than_100_collections"] = true
+		}
+	}
+	for s, as := range byStream {
+		in := c.Insts[s.inst]
+		b := bounds(as, never, never)
+		if b.mustCnt == 0 {
+			continue
+		}
+		kind := map[bool]string{true: "counter", false: "updown"}[isCounter(in)]
+		if len(as) >= 20 {
+			classes["stream_with_20_or_more_adds"] = true
+		}
+		switch {
+		case b.nan[0] > 0:
+			classes["stream_total:NaN(recorded NaN)"] = true
+		case b.pinf[0] > 0 && b.ninf[0] > 0:
+			classes["stream_total:NaN(+Inf and -Inf recorded)"] = true
+		case b.pinf[0] > 0:
+			classes["stream_total:+Inf_recorded_on_"+kind] = true
+		case b.ninf[0] > 0:
+			classes["stream_total:-Inf_recorded_on_"+kind] = true
+		case isFloat(in) && in.Scale == "huge" && b.lo >= top:
+			classes["stream_total:finite_values_overflow_to_+Inf_on_"+kind] = true
+		case isFloat(in) && in.Scale == "huge" && b.hiPos >= top:
+			classes["stream_total:+Inf_or_exact(order dependent overflow, both accepted)"] = true
+		case isFloat(in) && in.Scale == "huge" && b.lo >= top/4:
+			classes["stream_total:above_2^1022"] = true
+		case isFloat(in) && in.Scale == "sub" && b.lo != 0 && b.lo < top/2 && b.lo > -top/2:
+			classes["stream_total:subnormal"] = true
+		case isFloat(in) && in.Scale == "sub" && b.lo != 0:
+			classes["stream_total:sum_of_subnormals_is_normal"] = true
+		case !isFloat(in) && (b.lo >= top || b.lo <= -top):
+			classes["stream_total:int64_beyond_2^53"] = true
+			for _, a := range as {
+				if a.units >= top || a.units <= -top {
+					classes["int64_add_of_a_value_beyond_2^53"] = true
+				}
+			}
+		case isFloat(in) && in.Scale == "" && (b.lo >= top/8 || b.lo <= -top/8):
+			classes["stream_total:float64_needs_50_or_more_mantissa_bits"] = true
+		}
+	}
 	okCollections := len(cons)
 	if okCollections >= 2 {
 		classes["two_or_more_collections"] = true
@@ -1673,30 +2157,36 @@ type tline struct {
 func ptsString(co *consumer) string {
 	var ps []string
 	for s, v := range co.pts {
+		if z := co.sp[s]; z != 0 {
+			ps = append(ps, fmt.Sprintf("%v=%s", s, spName[z]))
+			continue
+		}
 		ps = append(ps, fmt.Sprintf("%v=%d", s, v))
 	}
 	sort.Strings(ps)
 	return strings.Join(ps, " ")
 }
 
+var spName = map[byte]string{'+': "+Inf", '-': "-Inf", 'n': "NaN", 'z': "-0"}
+
 func history(c Case, adds []*addRec, cons []*consumer, calls []*callRec, errs []error, more []tline) []string {
 	type line = tline
 	ls := append([]line{}, more...)
 	for _, a := range adds {
 		if a.done {
-			ls = append(ls, line{a.start, fmt.Sprintf("t=%d..%d Add#%d %s%s %+d units (%s)", a.start, a.end, a.id, instName(a.inst), a.set, a.units, a.where)})
+			what := fmt.Sprintf("%+d units", a.units)
+			if a.sp != 0 {
+				what = spName[a.sp]
+			}
+			ls = append(ls, line{a.start, fmt.Sprintf("t=%d..%d Add#%d %s%s %s (%s)", a.start, a.end, a.id, instName(a.inst), a.set, what, a.where)})
 		}
 	}
 	for _, co := range cons {
-		var ps []string
-		for s, v := range co.pts {
-			ps = append(ps, fmt.Sprintf("%v=%d", s, v))
-		}
-		sort.Strings(ps)
+		ps := ptsString(co)
 		if co.export {
-			ls = append(ls, line{co.end, fmt.Sprintf("t=%d..%d Export reader %d (%s): %s", co.end, co.exit, co.reader, c.Readers[co.reader].Temp, strings.Join(ps, " "))})
+			ls = append(ls, line{co.end, fmt.Sprintf("t=%d..%d Export reader %d (%s): %s", co.end, co.exit, co.reader, c.Readers[co.reader].Temp, ps)})
 		} else {
-			ls = append(ls, line{co.start, fmt.Sprintf("t=%d..%d Collect reader %d (%s %s): %s", co.start, co.end, co.reader, c.Readers[co.reader].Kind, c.Readers[co.reader].Temp, strings.Join(ps, " "))})
+			ls = append(ls, line{co.start, fmt.Sprintf("t=%d..%d Collect reader %d (%s %s): %s", co.start, co.end, co.reader, c.Readers[co.reader].Kind, c.Readers[co.reader].Temp, ps)})
 		}
 	}
 	for _, r := range calls {
@@ -1715,7 +2205,11 @@ func history(c Case, adds []*addRec, cons []*consumer, calls []*callRec, errs []
 	sort.Slice(ls, func(i, j int) bool { return ls[i].t < ls[j].t })
 	out := make([]string, 0, len(ls)+len(errs)+len(c.Insts))
 	for i, in := range c.Insts {
-		out = append(out, fmt.Sprintf("%s = %s %q of meter %s", instName(i), in.Kind, metricName(c, i), scopeName(in.Scope)))
+		unit := ""
+		if isFloat(in) {
+			unit = fmt.Sprintf(", 1 unit = 2^%d", scaleExp(in))
+		}
+		out = append(out, fmt.Sprintf("%s = %s %q of meter %s%s", instName(i), in.Kind, metricName(c, i), scopeName(in.Scope), unit))
 	}
 	for _, l := range ls {
 		out = append(out, l.s)
@@ -1800,9 +2294,6 @@ func run(c Case) ([]vk.Violation, vk.Info) {
 			recorders = n
 		}
 	}
-	for k := range opClasses {
-		info.Class(k)
-	}
 	for _, in := range c.Insts {
 		info.Class("instrument:" + in.Kind)
 	}
@@ -1828,6 +2319,35 @@ func run(c Case) ([]vk.Violation, vk.Info) {
 	info.ClassIf(sameScope && c.SumView, "same_name_instruments_with_sum_view")
 	info.ClassIf(recorders >= 2, "two_or_more_recorders_in_a_phase")
 	info.ClassIf(nadds >= 100, "100_or_more_adds")
+	for _, ph := range c.Phases {
+		for _, ops := range ph {
+			for _, op := range ops {
+				switch {
+				case op.K == "add":
+					in := c.Insts[idx(op.I, len(c.Insts))]
+					if z := special(op, in); z != 0 {
+						opClasses["add_of_special_value:"+spName[z]+"_on_"+in.Kind] = true
+					}
+				case repeats(op) > 32:
+					opClasses[op.K+"_repeated_more_than_32_times"] = true
+				case repeats(op) > 0:
+					opClasses[op.K+"_repeated"] = true
+				}
+			}
+		}
+	}
+	for k := range opClasses {
+		info.Class(k)
+	}
+	unitClasses := map[string]bool{}
+	for _, in := range c.Insts {
+		if isFloat(in) && in.Scale != "" {
+			unitClasses["float64_unit:"+map[string]string{"sub": "2^-1074(subnormal)", "huge": "2^971(MaxFloat64 = 2^53-1 units)"}[in.Scale]] = true
+		}
+	}
+	for k := range unitClasses {
+		info.Class(k)
+	}
 	info.ClassIf(zero, "zero_value_add")
 	info.ClassIf(neg, "negative_add_on_updown_counter")
 	info.ClassIf(len(usedSets) < len(c.Sets), "pool_set_never_used")
@@ -1871,7 +2391,7 @@ func runSeq(c Case) ([]vk.Violation, vk.Info) {
 func TestSequentialModel(t *testing.T) {
 	vk.Run(t, vk.Spec[Case]{
 		Property: "C02", Check: "sequential_model",
-		Rule: "the same instruments / attribute-set pool / readers as sum_conservation, but one goroutine issuing 1-80 Adds, Collects (any reader, reused or fresh ResourceMetrics), ForceFlushes (provider, or directly on a periodic reader; a twelfth of the calls with a cancelled context), rare sleeps and (a quarter of the cases) 1-2 direct Shutdown calls on a reader in sequence, final Collect, Shutdown, late calls: every bracket collapses to equality with the model at every collection point (interval exports of periodic readers still run beside it); " +
+		Rule: "the same instruments / attribute-set pool / readers as sum_conservation, but one goroutine issuing 1-80 Adds (same value dimensions: wide exact values, float64 units 1/8 / 2^-1074 / 2^971, special values +Inf -Inf NaN -0, hot stream), Collects (any reader, reused or fresh ResourceMetrics), ForceFlushes (provider, or directly on a periodic reader; a twelfth of the calls with a cancelled context, a sixteenth repeated 1-200 times in a row), rare sleeps and (a quarter of the cases) 1-2 direct Shutdown calls on a reader in sequence, final Collect, Shutdown, late calls: every bracket collapses to equality with the model at every collection point (interval exports of periodic readers still run beside it); " +
 			"non-trivial = >= 2 Adds and at least one Add between two collection points; distinct = distinct case encodings",
 		Quick: 1500, Thorough: 15000,
 		Gen: genSeq, Run: runSeq, Repeat: 20, Known: known,
@@ -1881,7 +2401,7 @@ func TestSequentialModel(t *testing.T) {
 func TestSumConservation(t *testing.T) {
 	vk.Run(t, vk.Spec[Case]{
 		Property: "C02", Check: "sum_conservation",
-		Rule: "generated concurrent programs: 1-4 instruments (Int64/Float64 Counter/UpDownCounter, two meters; in a quarter of the cases 2-4 instruments of one meter - and optionally 1-2 of the other meter - share ONE name and differ in kind / number type), a pool of 1-6 near-identical attribute sets, 1-5 readers (ManualReader or PeriodicReader with a 1 ms - 5 ms or 1 h interval and a recording exporter that is lenient or follows the Exporter contract (refuses Export after its Shutdown), optionally with scripted Export / ForceFlush / Shutdown errors or recording a measurement inside Export; delta / cumulative / delta-for-counters temporality), 1-4 barrier-separated phases of 1-8 recorder goroutines (0-200 Adds of exact, pairwise distinct values, <= 1000 per program) and 0-3 collector goroutines (Collect on any reader, provider ForceFlush, ForceFlush of a periodic reader itself, a twelfth of them with a cancelled context, sleeps) with generated schedule perturbations, in a quarter of the cases 1-2 direct Shutdown calls on a reader at a generated position, a final Collect on manual readers, Shutdown (optionally racing further Adds) and late calls; each program is executed twice; " +
+		Rule: "generated concurrent programs: 1-4 instruments (Int64/Float64 Counter/UpDownCounter, two meters; in a quarter of the cases 2-4 instruments of one meter - and optionally 1-2 of the other meter - share ONE name and differ in kind / number type), a pool of 1-6 near-identical attribute sets, 1-5 readers (ManualReader or PeriodicReader with a 1 ms - 5 ms or 1 h interval and a recording exporter that is lenient or follows the Exporter contract (refuses Export after its Shutdown), optionally with scripted Export / ForceFlush / Shutdown errors or recording a measurement inside Export; delta / cumulative / delta-for-counters temporality), 1-4 barrier-separated phases of 1-8 recorder goroutines (0-200 Adds of exact, pairwise distinct values up to 2^60 (int64) / 2^52 units of 1/8, 2^-1074 or 2^971 (float64: subnormal totals, totals beyond MaxFloat64), <= 1000 per program; in half of the programs one in 3-24 float64 Adds records +Inf / -0 / (up-down counters) -Inf / NaN; in a third of the programs half of the Adds go to one hot stream) and 0-3 collector goroutines (Collect on any reader, provider ForceFlush, ForceFlush of a periodic reader itself, a twelfth of them with a cancelled context, a sixteenth of them repeated 1-200 times in a row, sleeps) with generated schedule perturbations, in a quarter of the cases 1-2 direct Shutdown calls on a reader at a generated position, a final Collect on manual readers, Shutdown (optionally racing further Adds) and late calls; each program is executed twice; " +
 			"non-trivial = >= 1 collection (Collect / ForceFlush by logical-clock overlap, or an export whose collection window contains an Add) ran concurrently with >= 1 Add and >= 2 collections happened; distinct = distinct case encodings",
 		Quick: 300, Thorough: 3000,
 		Gen: gen, Run: run, Repeat: 100, Known: known,
